@@ -230,9 +230,8 @@ def gen_datetime(rng):
     elif r < 0.75:
         # around ISO-year boundaries: last / first week of a year
         y = rng.randint(1, 9999)
-        date = datetime.date(y, 1, 1) + datetime.timedelta(days=rng.randint(-7, 7))
-        if y == 1 and date.year != 1:
-            date = datetime.date(1, 1, 1)
+        o = datetime.date(y, 1, 1).toordinal() + rng.randint(-7, 7)
+        date = datetime.date.fromordinal(min(max(o, 1), 3652059))
     else:
         date = datetime.date.fromordinal(rng.randint(1, 3652059))
     if rng.random() < 0.6:
